@@ -21,6 +21,20 @@ geometry (fewer segments, trimmed axial and tangential ranges) — the harness d
 situations (`fwd`/`bsub` and `fwd2`/`bsub2` operations) — and `C04_fwd_smaller_data_is_restriction` states what connects the two.
 The data processors of `set_input` / `get_output` are arbitrary functions on the voxel array (`Proc`).
 
+The image grid `ig` is arbitrary as well: `ig.zmin`, `ig.zmax` are `density.get_min_index()` / `get_max_index()` whatever they
+are.  Since round 3 the harness drives the real projectors and the model on grids whose first plane is negative, positive or
+straddles 0 (`IndexRange3D(-4,4,…)`, `(-2,6,…)`, `(3,9,…)`, all planes negative) and whose x/y ranges have extra columns at
+either end, so every theorem that mentions `ig` (`C04_adjoint*`, `C04_additive_*`, `C04_fwd_subset_*`, `C04_bck_accumulates`,
+…) is now tied to the code on such grids too (a guard `z ≥ 0` instead of `z ≥ min_index` in either direction is a
+correspondence failure there, and breaks the adjointness oracle).
+
+**Re-use of one matrix / projector object for several geometries** (`C04_reused_matrix_*` at the end): the rows above are
+"the rows of the geometry the projectors were set up with"; which rows an object that has been `set_up` several times
+actually returns is decided by the cache state machine `MatrixObj`, and the theorems say: those of the last `set_up`,
+i.e. those of a fresh object.  The harness runs such histories on the real objects (ray-tracing and interpolation matrices,
+cache on / every bin cached / off, separate projectors and `ProjectorByBinPairUsingProjMatrixByBin`) and lets the model —
+fed with the rows of a fresh matrix — answer the projections of the old objects.
+
 The last clause of the property ("the on-the-fly ray-tracing forward projector gives the same data as forward projection
 through the ray-tracing matrix") is about `ForwardProjectorByBinUsingRayTracing`, which is not modelled: it is evaluated on
 the implementation by the oracle of `harness/c04_projectors.cxx` only — with `restrict_to_cylindrical_FOV` true and false,
@@ -29,8 +43,12 @@ every segment with full ranges and axial+tangential sub-ranges, and projection d
 Found there: the half-plane term dropped at tangential position 0 in `forward_project_all_symmetries_2D` (repaired in /repo),
 `+=` instead of overwriting the viewgrams, the `plus_90` routines used at 45 degrees for non-square voxels, and the hard-coded
 two planes per ring in `proj_Siddon` (the last two: known candidates with proposed repairs `build/fixes/C04-1.diff`, `C04-2.diff`).
+Round 3 (image grids whose first plane is not 0): `proj_Siddon` tests `plane >= 0` instead of `plane >= min_index`, so planes
+of negative index are ignored and memory before a positive first plane is read (known candidate
+`on-the-fly-raytracing:image-first-plane-not-0`, proposed repair `build/fixes/C04-4.diff`).
 -/
 import StirVerif.C04.ProofsProc
+import StirVerif.C04.ProofsMatrix
 
 set_option linter.unusedSectionVars false
 set_option linter.unusedSimpArgs false
@@ -74,7 +92,9 @@ theorem C04_bck_linear (c : K) (y y' : Array K) (hy : y.size = y'.size) (bins : 
 /-- "the two operations are adjoint, ⟨A x, y⟩ = ⟨x, Aᵀ y⟩ for all images x and data y" — for the rows of **any** finite
     sequence of bins, hence for the full data set, every subset, every symmetry group of viewgrams and every axial or
     tangential sub-range (they are all sequences of bins): the forward projection written into the data `d` by the model
-    and read back at the bins, against the back projection accumulated by the model into a zero image. -/
+    and read back at the bins, against the back projection accumulated by the model into a zero image.
+    (`ig` arbitrary: since round 3 exercised against the code also on image grids whose first plane is not 0 and, via the
+    history operations, on projector objects that were set up for other geometries before.) -/
 theorem C04_adjoint (x y d : Array K) (bins : List Bin) (hinj : InjOn idx bins) (hsz : ∀ b ∈ bins, idx b < d.size) :
     dotBins idx (fwdBins rows ig idx x bins d) y bins = dotImg x (bckBins rows ig idx y bins (zeroImg x.size)) :=
   adjoint_bins rows ig idx x y d bins hinj hsz
@@ -435,6 +455,80 @@ example : setInput (some (procScale (3 : Int))) #[1, -2] = some #[3, -6]
     ∧ setInput none #[(1 : Int), -2] = some #[1, -2]
     ∧ (BackProj.mk #[(1 : Int), 2]).getOutputPost (some (procScale 2)) = some #[2, 4] := by
   simp [setInput, procScale, BackProj.getOutputPost]
+
+/-! ## one matrix object, several geometries -/
+
+section Matrix
+variable {G R : Type} [DecidableEq G]
+
+/-- "For every matched forward/back projector pair … ⟨A x, y⟩ = ⟨x, Aᵀ y⟩ … for the full data set and for every subset …"
+    is a statement about the pair *as it is when it is used*, whatever it was used for before.  For the matrix object behind
+    the pair: after **any** history `pre` of `set_up`s (base-class or ray-tracing version, for any geometries) and row
+    requests, a `set_up` for `g` followed by any row requests `bs` leaves an object whose
+    `get_proj_matrix_elems_for_one_bin(bin)` returns the row of `bin` for `g` — in every cache mode.  `K` plays no role
+    (`R` is any type of rows' values).  Hypothesis: the symmetries are coherent (the basic bin of a basic bin is itself and
+    its operation is the identity — `find_symmetry_operation_from_basic_bin` returns a `TrivialSymmetryOperation`). -/
+theorem C04_reused_matrix_gives_rows_of_last_set_up (D : MatrixData G R) (hD : D.Coherent) (cacheEnabled onlyBasic : Bool)
+    (pre : List (MOp G)) (rayTracing : Bool) (g : G) (bs : List Bin) (bin : Bin) :
+    ((MatrixObj.new cacheEnabled onlyBasic).exec D
+        (pre ++ [if rayTracing then MOp.setUpRT g else MOp.setUp g] ++ bs.map MOp.get)).rowNow D bin
+      = some (D.rowOf g bin) := by
+  rw [MatrixObj.exec_append, MatrixObj.exec_append]
+  have h0 := MatrixObj.inv_exec D hD pre _ (MatrixObj.inv_new D cacheEnabled onlyBasic)
+  generalize (MatrixObj.new cacheEnabled onlyBasic).exec D pre = m0 at h0
+  have h1 : ((m0.exec D [if rayTracing then MOp.setUpRT g else MOp.setUp g]).Inv D)
+      ∧ (m0.exec D [if rayTracing then MOp.setUpRT g else MOp.setUp g]).geom = some g := by
+    cases rayTracing
+    · exact ⟨MatrixObj.inv_setUp D m0 g, rfl⟩
+    · exact ⟨MatrixObj.inv_setUpRT D m0 h0 g, MatrixObj.geom_setUpRT m0 g⟩
+  generalize m0.exec D [if rayTracing then MOp.setUpRT g else MOp.setUp g] = m1 at h1
+  obtain ⟨h2, hg2⟩ := MatrixObj.geom_exec_gets D hD bs m1 g h1.1 h1.2
+  obtain ⟨m', hrow, _⟩ := MatrixObj.getRow_spec D hD _ h2 g hg2 bin
+  simp [MatrixObj.rowNow, hrow]
+
+/-- … hence **a re-used matrix = a fresh matrix**: the object with the history returns what an object that was constructed
+    with the same flags and set up for `g` only returns. -/
+theorem C04_reused_matrix_eq_fresh_matrix (D : MatrixData G R) (hD : D.Coherent) (cacheEnabled onlyBasic : Bool)
+    (pre : List (MOp G)) (rayTracing : Bool) (g : G) (bs : List Bin) (bin : Bin) :
+    ((MatrixObj.new cacheEnabled onlyBasic).exec D
+        (pre ++ [if rayTracing then MOp.setUpRT g else MOp.setUp g] ++ bs.map MOp.get)).rowNow D bin
+      = ((MatrixObj.new cacheEnabled onlyBasic).exec D [MOp.setUp g]).rowNow D bin := by
+  rw [C04_reused_matrix_gives_rows_of_last_set_up D hD]
+  have := C04_reused_matrix_gives_rows_of_last_set_up D hD cacheEnabled onlyBasic [] false g [] bin
+  simpa using this.symm
+
+/-- the cache is what makes this a property: a `set_up` that keeps the cache (`recycle()` / `clear_cache()` dropped, the
+    defect seeded in round 2) returns the row of the *previous* geometry.  Two geometries `0`, `1` whose rows differ, every
+    bin basic: -/
+def exD : MatrixData Nat Int := ⟨fun g b => [((0, 0, 0), (g : Int) + b.ax)], fun _ b => b, fun _ _ r => r⟩
+
+example : exD.Coherent := ⟨fun _ _ => rfl, fun _ _ _ _ => rfl⟩
+
+def exA : Bin := ⟨0, 0, 5, 0, 0⟩
+
+/-- non-vacuity: the history "set up for 0, request bin a, set up for 1, request bin a" on `exD` — the second request returns
+    the row of geometry 1 although the row of geometry 0 was cached, in all four cache modes and with either `set_up`;
+    with the ray-tracing shortcut a second `set_up` for the *same* geometry keeps the cached row (still the right one) -/
+example (ce ob rt : Bool) :
+    ((MatrixObj.new ce ob).exec exD [MOp.setUp 0, MOp.get exA, if rt then MOp.setUpRT 1 else MOp.setUp 1]).rowNow exD exA
+        = some [((0, 0, 0), 6)] := by
+  cases ce <;> cases ob <;> cases rt <;> decide
+
+example :
+    ((MatrixObj.new true true).exec exD [MOp.setUp 0, MOp.get exA] : MatrixObj Nat Int).cache.lookup exA = some [((0, 0, 0), 5)]
+    ∧ ((MatrixObj.new true true).exec exD [MOp.setUp 0, MOp.get exA, MOp.setUpRT 0] : MatrixObj Nat Int).cache.lookup exA = some [((0, 0, 0), 5)]
+    ∧ ((MatrixObj.new true true).exec exD [MOp.setUp 0, MOp.get exA, MOp.setUp 0] : MatrixObj Nat Int).cache.length = 0 := by
+  decide
+
+/-- **negative witness for the seeded defect**: a `set_up` that only replaces the geometry and keeps the cache returns the
+    stale row (5 instead of 6) -/
+theorem C04_set_up_keeping_the_cache_fails :
+    ({ (MatrixObj.new true true).exec exD [MOp.setUp 0, MOp.get exA] with geom := some 1 } : MatrixObj Nat Int).rowNow exD exA
+        = some [((0, 0, 0), 5)]
+      ∧ exD.rowOf 1 exA = [((0, 0, 0), 6)] := by
+  decide
+
+end Matrix
 
 /-- the whole chain evaluated on numbers (`K = ℤ`): one row through two voxels, forward and back -/
 example : fwdRow ⟨0, 0, fun v => v.2.2.toNat⟩ [((0, 0, 0), (2 : Int)), ((0, 0, 1), 3), ((5, 0, 1), 7)] #[10, 100] 0 = 320
